@@ -1306,6 +1306,9 @@ pub fn c18_bases(r: &mut Rng, tier: &str) -> Vec<(String, Built, StarkConfig)> {
         // rate_bits 3 with cap_height 0: paths shorter than 3 make `lde_bits - rate_bits` underflow
         ("fib/n8/r3c0".to_string(), build_fib(8, 1, 1), mk(2, fri(3, 0, 2, ConstantArityBits(1, 1), 4))),
         ("unconstrained/n8/r2c0fix".to_string(), build_unconstrained(r, 8), cfgs[1].1.clone()),
+        // arity bits above final_poly_bits + 1: a degree read from a shortened Merkle path can be smaller than the arity,
+        // where ConstantArityBits::reduction_arity_bits asserts
+        ("fib/n64/r3c2a4f2".to_string(), build_fib(64, 3, 5), mk(2, fri(3, 2, 2, ConstantArityBits(4, 2), 4))),
         ("lookup2/n16/r1c1a1".to_string(), crate::c10::build_perm(r, 16, 2, 2, false), cfgs[0].1.clone()),
     ];
     if tier == "thorough" {
